@@ -761,16 +761,17 @@ static void validateModel(Ctx& c, const Cfg& g, Model* m, const std::string& ep,
     // ---- range-pos
     if (cv->hasRange() != 0)
     {
-      bool ok = true;
+      bool ok = true, finite = true;
       std::string det;
       for (int d = 0; d < g.ndim; d++)
       {
         double rg = cv->getRange(d);
+        if (!std::isfinite(rg)) finite = false;
         if (!(std::isfinite(rg) && rg > 0)) ok = false;
         if (std::isfinite(rg) && rg > 1e30) c.probe("range-above-1e30"); // positive, but beyond the library's own "undefined" marker
         det += fmt("%g ", rg);
       }
-      c.truth("range-pos", "C17:range:not-positive:" + kcls, ok, fmt("structure %d (%s) ranges %s", k, tk.c_str(), det.c_str()));
+      c.truth("range-pos", std::string(finite ? "C17:range:not-positive:" : "C17:range:not-finite:") + (exotic ? "exotic-type" : "regular-types"), ok, fmt("structure %d (%s) ranges %s", k, tk.c_str(), det.c_str()));
       VectorDouble ang = cv->getAnisoAngles();
       bool aok         = true;
       for (auto a : ang.getVector()) aok &= std::isfinite(a) && !FFFF(a);
@@ -1141,7 +1142,7 @@ static void sillsCase(Rng& r, Ctx& c, Cfg& g, Vario* vario, double gmax)
       for (int k = 0; k < model->getCovaNumber(); k++) tot += model->getCova(k)->getSill(iv, iv);
       double tol = 1e-6 * cs + 1e4 * EPS * gmax;
       double e   = std::isfinite(tot) ? std::fabs(tot - cs) : INFINITY;
-      c.check("sills-constsill", std::string("C17:sills:constant-sill:") + ep + (csMulti ? ":multivariate" : ":nvar=1"), e <= tol, e, tol,
+      c.check("sills-constsill", std::string("C17:sills:constant-sill:") + ep + (!expand ? ":value-not-expanded-by-caller" : (csMulti ? ":multivariate" : ":nvar=1")), e <= tol, e, tol,
               fmt("variable %d total sill %.10g requested %.10g", iv, tot, cs));
     }
 }
